@@ -117,6 +117,8 @@ def kappa_window_games(res, rng, n):
 
 def c01(res):
     rng = random.Random(res.seed)
+    import gentie
+    gentie.note(res, "v, w, vt, wt, the default gamma of the five models")
     c01_sum_q(res, rng)
     if res.shard == 0:
         c01_ladder(res)
